@@ -528,6 +528,20 @@ class Interp:
                 return oi_.drain()
         raise AnalysisError('heap model: cannot iterate %r' % (v,))
 
+    def walk(self, v):
+        """the elements of an iterable value one at a time: an iterator is asked for an item only when the consumer wants one (what a
+        consumer that stops early leaves in it stays in it)"""
+        if isinstance(v, Ref) and not self.h.is_list(v) and self.h.objs[v.name]['__class__'] != 'dict':
+            oi_ = self.obj_iter(v)
+            if oi_ is not None:
+                v = oi_
+        if isinstance(v, PyIter):
+            while v.has_next():
+                yield v.take()
+            return
+        for x_ in self.seq(v):
+            yield x_
+
     def obj_iter_possible(self, v):
         h = self.h
         return isinstance(v, Ref) and h.objs[v.name]['__class__'] in h.module.classes and (
@@ -1189,7 +1203,7 @@ class Interp:
                         raise _Stop()
                     return
                 g_ = gen_.generators[k]
-                for v_ in self.seq(self.ev(g_.iter, env2 if k else env, cls)):
+                for v_ in self.walk(self.ev(g_.iter, env2 if k else env, cls)):
                     env3 = dict(env2)
                     self.assign(g_.target, v_, env3, cls)
                     if all(self.truth(self.ev(c_, env3, cls)) for c_ in g_.ifs):
@@ -1220,8 +1234,10 @@ class Interp:
             else:
                 kwargs[k.arg] = self.ev(k.value, env, cls)
         if isinstance(fn, ast.Name) and fn.id in ('any', 'all') and fn.id not in env and len(args) == 1:
-            vals = [self.truth(v) for v in self.seq(args[0])]
-            return any(vals) if fn.id == 'any' else all(vals)
+            for v in self.walk(args[0]):          # stops at the first deciding item
+                if self.truth(v) == (fn.id == 'any'):
+                    return fn.id == 'any'
+            return fn.id != 'any'
         if isinstance(fn, ast.Name) and fn.id == 'range' and 'range' not in env and all(isinstance(a, int) for a in args) and 1 <= len(args) <= 3:
             r_ = range(*args)
             if len(r_) > 10000:
@@ -1234,6 +1250,8 @@ class Interp:
             raise AnalysisError('heap model: ord() of %r' % (args[0],))
         if isinstance(fn, ast.Name) and fn.id == 'chr' and 'chr' not in env and len(args) == 1 and not kwargs and isinstance(args[0], int):
             return chr(args[0])
+        if isinstance(fn, ast.Name) and fn.id in ('max', 'min', 'sorted', 'sum') and fn.id not in env and args and isinstance(args[0], PyIter):
+            args = [args[0].drain()] + list(args[1:])          # an iterator is walked once, whichever branch below takes the call
         if isinstance(fn, ast.Name) and fn.id == 'max' and 'max' not in env and len(args) >= 1 and not kwargs:
             vals = self.seq(args[0]) if len(args) == 1 else list(args)
             if vals and all(isinstance(v, int) for v in vals):
@@ -1435,6 +1453,11 @@ class Interp:
                         return args[2]
                     raise
             _ = o_
+        if isinstance(fn, ast.Name) and fn.id == 'hasattr' and 'hasattr' not in env and len(args) == 2 and not kwargs and isinstance(args[1], str) \
+                and (args[0] is None or type(args[0]) in (str, bytes, int, bool, float, list, dict, set, frozenset) or (type(args[0]) is tuple and not (args[0] and isinstance(args[0][0], str)))):
+            return hasattr(args[0], args[1])          # a decided plain value: what its type offers
+        if isinstance(fn, ast.Name) and fn.id == 'hasattr' and 'hasattr' not in env and len(args) == 2 and not kwargs and isinstance(args[1], str) and isinstance(args[0], PyIter):
+            return args[1] in ('__next__', '__iter__')          # an iterator
         if isinstance(fn, ast.Name) and fn.id in ('bool',) and len(args) == 1:
             return self.truth(args[0])
         if isinstance(fn, ast.Name) and fn.id == 'int' and 'int' not in env and 'int' not in h.hooks and len(args) == 1 and not kwargs \
@@ -1474,6 +1497,15 @@ class Interp:
                 return max(vals) if fn.id == 'max' else min(vals)
             if any(x is None for x in vals) or len({type(x) for x in vals}) > 1 and all(isinstance(x, (int, str)) for x in vals):
                 raise Raised('TypeError', h.version, e.lineno)
+            if all(h.is_list(x) or isinstance(x, (list, tuple)) for x in vals):
+                # lists / tuples of decided numbers or texts: Python's lexicographic order; of equal ones the FIRST is the result
+                plain_ = [[y.concrete() if isinstance(y, SStr) and y.concrete() is not None else y for y in (h.items(x) if h.is_list(x) else x)] for x in vals]
+                if all(all(isinstance(y, str) for y in x) for x in plain_) or all(all(isinstance(y, int) and not isinstance(y, bool) for y in x) for x in plain_):
+                    best_ = 0
+                    for i_ in range(1, len(plain_)):
+                        if (plain_[i_] > plain_[best_]) if fn.id == 'max' else (plain_[i_] < plain_[best_]):
+                            best_ = i_
+                    return vals[best_]
             raise AnalysisError('heap model: %s of %s' % (fn.id, norm(e)[:60]))
         if isinstance(fn, ast.Name) and fn.id in ('set', 'frozenset') and len(args) <= 1 and fn.id not in env:
             items = self.seq(args[0]) if args else []
@@ -1844,6 +1876,8 @@ class Interp:
         if isinstance(f, tuple) and f and f[0] == 'symmethod':
             return self.sym_method(f[1], f[2], args, kwargs, e)
         if isinstance(f, tuple) and f and f[0] == 'strmethod':
+            if f[2] == 'join' and args and isinstance(args[0], PyIter):
+                args = [self.seq(args[0])] + list(args[1:])          # an iterator is walked once
             if any(isinstance(a, SStr) for a in args) or (f[2] == 'join' and args and any(isinstance(x, SStr) for x in self.seq(args[0]))):
                 if f[2] == 'join':
                     items = self.seq(args[0])
